@@ -7,8 +7,10 @@ One event = one atomic action of the real code:
 * every API call is `inv` (logged before the call), `exec` (its single critical section on
   `Keyed.mtx`; the `KeyedRefCount` calls hold `rc.mtx` around it — one event), the constructor
   callbacks it made (`cbin ctor k d`, logged inside the critical section) and `ret`;
-* per started goroutine `execute` (an *instance*): `proceed` / `giveUp` / `drained` / `skip` (the
-  first select, routine.go:106-116), `cbin run` / `cbout` (the routine function, harness-controlled),
+* per started goroutine `execute` (an *instance*): `proceed` / `bail` (the first select with the
+  `<-waitCh` of its `ctx.Done()` branch, resp. the `ctx.Err()` test, routine.go:106-116; which branch
+  the select commits to is not observable before the predecessor's channel is closed, so the two
+  steps "took `ctx.Done()`" and "`<-waitCh` returned" are one event), `cbin run` / `cbout` (the routine function, harness-controlled),
   `closeExit` (`cancel(); close(exitedCh)`), `record` (the final critical section, 125-157);
 * `timerRemove k` / `timerRetry k` (the `time.AfterFunc` callbacks), `advance` (new time epoch),
   `quiesce` (nothing left to do), `probe` (harness reads `ctx.Err()` inside a running instance).
@@ -29,7 +31,6 @@ namespace UtilModel.Keyed
 /-- state of one `execute` goroutine -/
 inductive IS where
   | waiting    -- in the first select / before the `ctx.Err()` test
-  | draining   -- took `ctx.Done()`, now in `<-waitCh`
   | entered    -- decided to call the routine function; its entry is not logged yet
   | running    -- inside the routine function
   | returned   -- routine returned / skipped; `close(exitedCh)` not done yet
@@ -423,8 +424,7 @@ def recordInst (s : St) (g i : Nat) (x : Inst) (k : Nat) : St :=
 /-- can instance `x` of generation `y` take an internal step right now -/
 def instBusy (y : G) (x : Inst) : Bool :=
   match x.st with
-  | .waiting => x.cancelled || chClosed y x.waitOn
-  | .draining => chClosed y x.waitOn
+  | .waiting => chClosed y x.waitOn
   | .entered | .returned | .closed => true
   | .running | .recorded => false
 
@@ -439,9 +439,7 @@ inductive Ev where
   | ctor (k d : Nat)
   | ret (id : Nat) (res : Res)
   | proceed (g i : Nat)
-  | giveUp (g i : Nat)
-  | drained (g i : Nat)
-  | skip (g i : Nat)
+  | bail (g i : Nat)
   | cbin (j g i k d : Nat)
   | cbout (j : Nat) (o : Outcome)
   | closeExit (g i : Nat)
@@ -514,13 +512,8 @@ def step (s : St) : Ev → Option St
   | .proceed g i => instStep s g i fun y x =>
       if x.st = .waiting ∧ chClosed y x.waitOn ∧ (x.waitOn = none → x.cancelled = false)
       then some { x with st := .entered } else none
-  | .giveUp g i => instStep s g i fun _ x =>
-      if x.st = .waiting ∧ x.cancelled ∧ x.waitOn.isSome then some { x with st := .draining } else none
-  | .drained g i => instStep s g i fun y x =>
-      if x.st = .draining ∧ chClosed y x.waitOn
-      then some { x with st := .returned, failed := true, retEpoch := s.epoch } else none
-  | .skip g i => instStep s g i fun _ x =>
-      if x.st = .waiting ∧ x.cancelled ∧ x.waitOn = none
+  | .bail g i => instStep s g i fun y x =>
+      if x.st = .waiting ∧ x.cancelled ∧ chClosed y x.waitOn
       then some { x with st := .returned, failed := true, retEpoch := s.epoch } else none
   | .cbin j g i k d =>
     if j = s.runs.length then
@@ -578,7 +571,7 @@ def cands (s : St) : List Ev :=
     match s.gens[g]? with
     | none => []
     | some y => (List.range y.insts.length).flatMap fun i =>
-        [.proceed g i, .giveUp g i, .drained g i, .skip g i, .closeExit g i, .record g i]) ++
+        [.proceed g i, .bail g i, .closeExit g i, .record g i]) ++
   ((List.range s.kbound).flatMap fun k => [.timerRemove k, .timerRetry k])
 
 /-- the harness cannot know which goroutine entered the routine function: every instance -/
